@@ -25,9 +25,11 @@
 (*  M  MECHANISM.  What the implementation is meant to compute:            *)
 (*     NormalForm(v)  - the value up to Value::eq (the sign of a float     *)
 (*                      zero is not observable): parse + Value::eq;        *)
-(*     LeftShifts(v)  - the values compare_recon_values confuses with v    *)
-(*                      (it does not see where a nested attribute-less     *)
-(*                      record starts among the items before it);          *)
+(*     CompareEvents  - a transcription of incremental_compare and         *)
+(*                      ValueValidator over the parse event streams (run   *)
+(*                      by TLC on the pairs where the comparator's size    *)
+(*                      bookkeeping decides: same primitive events,        *)
+(*                      different nesting);                                *)
 (*     HashEvents(v, style) - the event stream HashParser feeds to the     *)
 (*                      hasher: numbers normalised (one key per number),   *)
 (*                      floats by bit pattern, and StartBody / EndRecord   *)
@@ -68,7 +70,7 @@ FloatIds == {"f0", "fneg0", "f1", "fm1", "fh", "f1e19", "fp64"}
 NumIds == IntIds \cup FloatIds
 SpecialLeafIds == IF Wide THEN {"n0", "nm1", "nbig", "i64min", "u64max", "f0", "fneg0", "tb", "tcomma", "tcolon", "tclose", "topen", "tbrace"}
                           ELSE {"n0", "f0", "fneg0", "tcomma", "tclose", "topen"}
-LeafIds == {"n1", "ta", "ext"} \cup SpecialLeafIds \cup NumIds
+LeafIds == {"n1", "ta", "ext", "tcloseb"} \cup SpecialLeafIds \cup NumIds
 
 Items1(X) == {VItem(x) : x \in X} \cup {SItem(k, x) : k \in Generic, x \in (X \cap SlotVals) \cup {Ext}}
 SeqUpTo2(S) == {<<>>} \cup {<<a>> : a \in S} \cup {<<a, b>> : a, b \in S}
@@ -99,7 +101,22 @@ NumContexts == {NumContext(id, c) : id \in NumIds, c \in 1..5}
 \* 0 for a value that is not one of these, else the context: all numbers in the same context are compared pairwise
 ContextOf(x) == IF \E c \in 1..5 : \E id \in NumIds : x = NumContext(id, c)
                   THEN CHOOSE c \in 1..5 : \E id \in NumIds : x = NumContext(id, c) ELSE 0
-BaseValues == Generic \cup RecsOver(Generic) \cup RecsOver(Comp) \cup TwoAttrs \cup NumContexts
+\* slots whose KEY is a primitive, an attributed value, a record of one or two items, {@k}, @k(1){a}; in a record body,
+\* in an attribute body, followed by another item or not, nested in an item and in a slot value
+KAttr == Rec(<<Attr("k", None)>>, <<>>)
+SlotKeys == {N1, KAttr, Rec(<<>>, <<VItem(N1)>>), Rec(<<>>, <<VItem(N1), VItem(TA)>>), Rec(<<>>, <<VItem(KAttr)>>),
+             Rec(<<Attr("k", N1)>>, <<VItem(TA)>>)}
+SlotContext(sl, c) == CASE c = 1 -> Rec(<<>>, <<sl>>)
+                        [] c = 2 -> Rec(<<>>, <<sl, VItem(TA)>>)
+                        [] c = 3 -> Rec(<<Attr("a", Rec(<<>>, <<sl>>))>>, <<>>)
+                        [] c = 4 -> Rec(<<Attr("a", Rec(<<>>, <<sl, VItem(TA)>>))>>, <<>>)
+                        [] c = 5 -> Rec(<<>>, <<VItem(Rec(<<>>, <<sl>>))>>)
+                        [] c = 6 -> Rec(<<>>, <<SItem(TA, Rec(<<>>, <<sl>>))>>)
+SlotShapes == {SlotContext(SItem(k, x), c) : k \in SlotKeys, x \in {N1, Ext, Rec(<<>>, <<VItem(N1)>>)}, c \in 1..6}
+\* implicit attribute bodies whose first item is a string literal that the lexical scan of the hasher reacts to
+ScanShapes == {Rec(<<Attr("a", Rec(<<>>, <<VItem(Leaf(l)), VItem(N1)>>))>>, is)
+                 : l \in {"tclose", "tcloseb", "topen", "tbrace", "tcomma", "tcolon"}, is \in {<<>>, <<VItem(TA)>>}}
+BaseValues == Generic \cup RecsOver(Generic) \cup RecsOver(Comp) \cup TwoAttrs \cup NumContexts \cup SlotShapes \cup ScanShapes
 
 -----------------------------------------------------------------------------
 (* D. near misses: one abstract edit *)
@@ -182,6 +199,18 @@ DeepEdits(x) ==
 LeafPositions(x) == IF Wide THEN 1..NumLeaves(x) ELSE {1, NumLeaves(x)} \cap (1..NumLeaves(x))
 LeafEdits(x) == {ReplaceLeaf(x, n, Leaf(id)) : n \in LeafPositions(x), id \in SpecialLeafIds \cup {"n1", "ta"}}
 
+\* wrap / unwrap ONE nesting level at ONE position: x <-> {x}, at the value itself, an attribute body, an item, a slot key
+\* or a slot value, at any depth
+Braces(x) == (IF x.t \in {"leaf", "rec"} /\ x # Ext THEN {Rec(<<>>, <<VItem(x)>>)} ELSE {})
+             \cup (IF IsRec(x) /\ x.attrs = <<>> /\ Len(x.items) = 1 /\ ~x.items[1].slot THEN {x.items[1].val} ELSE {})
+RECURSIVE BraceEdits(_)
+BraceEdits(x) ==
+    Braces(x) \cup
+    (IF ~IsRec(x) THEN {}
+     ELSE UNION {{Rec(ReplaceAt(x.attrs, k, Attr(x.attrs[k].name, w)), x.items) : w \in BraceEdits(x.attrs[k].body)} : k \in 1..Len(x.attrs)}
+          \cup UNION {{Rec(x.attrs, ReplaceAt(x.items, k, [x.items[k] EXCEPT !.val = w])) : w \in BraceEdits(x.items[k].val)} : k \in 1..Len(x.items)}
+          \cup UNION {{Rec(x.attrs, ReplaceAt(x.items, k, [x.items[k] EXCEPT !.key = w])) : w \in BraceEdits(x.items[k].key)} : k \in 1..Len(x.items)})
+
 \* "nothing" can only be written as the value of a slot (`k:`)
 RECURSIVE WF(_)
 WF(x) == CASE x.t = "leaf" -> x # Ext
@@ -189,7 +218,7 @@ WF(x) == CASE x.t = "leaf" -> x # Ext
                              /\ \A k \in 1..Len(x.items) : /\ (x.items[k].slot => WF(x.items[k].key))
                                                             /\ ((x.items[k].slot /\ x.items[k].val = Ext) \/ WF(x.items[k].val))
            [] OTHER -> FALSE
-Edits(x) == {w \in (TopEdits(x) \cup DeepEdits(x) \cup LeafEdits(x)) \ {x} : WF(w)}
+Edits(x) == {w \in (TopEdits(x) \cup DeepEdits(x) \cup LeafEdits(x) \cup BraceEdits(x)) \ {x} : WF(w)}
 
 -----------------------------------------------------------------------------
 (* D. renderings: styles and tokens.  A token is a string; "NL" is a newline, "SP" a space. *)
@@ -248,6 +277,7 @@ Spell(id, st) ==
       [] id = "tcomma" -> "\"x,y\""
       [] id = "tcolon" -> "\"k:v\""
       [] id = "tclose" -> "\")\""
+      [] id = "tcloseb" -> "\"x)y\""
       [] id = "topen" -> "\"(\""
       [] id = "tbrace" -> "\"}\""
       [] id = "bt" -> "true"
@@ -269,6 +299,7 @@ ScanChars(tok) ==
       [] tok = "\"x,y\"" -> <<",">>
       [] tok = "\"k:v\"" -> <<":">>
       [] tok = "\")\"" -> <<")">>
+      [] tok = "\"x)y\"" -> <<")">>
       [] tok = "\"(\"" -> <<"(">>
       [] tok = "\"}\"" -> <<"}">>
       [] OTHER -> <<>>
@@ -378,27 +409,156 @@ Skeleton(x) == SelectSeq(NF(x), LAMBDA e : e \notin {"SB", "ER", "IT"})
 HashEvents(x, st) == RE(x, st, <<>>).ev
 Undetected(x, st) == RE(x, st, <<>>).und
 
-(* M. what the comparator cannot tell apart.  incremental_compare skips a StartBody that only one side has, and      *)
-(* ValueValidator's equality then compares, frame by frame, only the SIZES of the item collections, adding up nested *)
-(* frames that have no key (comparator/mod.rs, PartialEq for ValueValidator).  So it cannot see WHERE a nested       *)
-(* record without attributes begins among the items that precede its content: { x, {y} } and { {x, y} } are the same *)
-(* to it.  LeftShifts(x) = the values obtained from x by moving the opening of ONE such nested record (a value item, *)
-(* no attributes, not empty) to the left across one or more whole items, anywhere in x.  The relation is not         *)
-(* transitive ({a,{1},{1}} ~ {{a,1},{1}} and ~ {a,{{1},1}}, but these two are told apart).                           *)
-Absorbing(it) == ~it.slot /\ IsRec(it.val) /\ it.val.attrs = <<>> /\ it.val.items # <<>>
-TopShifts(x) ==
-    {Rec(x.attrs, SubSeq(x.items, 1, s - 1) \o <<VItem(Rec(<<>>, SubSeq(x.items, s, j - 1) \o x.items[j].val.items))>>
-                  \o SubSeq(x.items, j + 1, Len(x.items)))
-       : <<s, j>> \in {p \in (1..Len(x.items)) \X (1..Len(x.items)) : p[1] < p[2] /\ Absorbing(x.items[p[2]])}}
-RECURSIVE LeftShifts(_)
-LeftShifts(x) ==
-    IF ~IsRec(x) THEN {}
-    ELSE TopShifts(x)
-         \cup UNION {{Rec(ReplaceAt(x.attrs, k, Attr(x.attrs[k].name, w)), x.items) : w \in LeftShifts(x.attrs[k].body)} : k \in 1..Len(x.attrs)}
-         \cup UNION {{Rec(x.attrs, ReplaceAt(x.items, k, [x.items[k] EXCEPT !.val = w])) : w \in LeftShifts(x.items[k].val)} : k \in 1..Len(x.items)}
-         \cup UNION {{Rec(x.attrs, ReplaceAt(x.items, k, [x.items[k] EXCEPT !.key = w])) : w \in LeftShifts(x.items[k].key)} : k \in 1..Len(x.items)}
-\* normal forms of the values the comparator confuses with x (together with those that have x among theirs)
-ShiftForms(x) == {NF(w) : w \in LeftShifts(x)}
+(* M. the comparator: compare_recon_values = incremental_compare over the two parse event streams, with one        *)
+(* ValueValidator per side (api/formats/swimos_recon/src/comparator/mod.rs).  A transcription, one operator per      *)
+(* function of the code, one CASE arm per match arm.  Events are records [k, v]: k in "prim" "sa" "ea" "sb" "slot"  *)
+(* "er"; two events are == iff the records are equal (numbers are written by value).                                *)
+(* Known consequence (C15-F12): a StartBody that only one side has is skipped, and the validators' equality adds up  *)
+(* the sizes of nested frames without a key, so it cannot see WHERE a nested attribute-less record opens among the   *)
+(* items before its content: { x, {y} } and { {x, y} } compare equal.                                                *)
+
+\* ValueType
+Prim == [t |-> "P"]
+RecT(a, i) == [t |-> "R", a |-> a, i |-> i]
+VLen(vt) == IF vt.t = "P" THEN 1 ELSE (IF vt.a = 0 THEN 1 ELSE vt.a) + (IF vt.i = 0 THEN 1 ELSE vt.i)
+\* Option<ItemType>
+NoItem == [t |-> "none"]
+ValIt(vt) == [t |-> "V", v |-> vt]
+SlotIt(k, vt) == [t |-> "S", k |-> k, v |-> vt]
+ILen(it) == CASE it.t = "V" -> VLen(it.v) [] it.t = "S" -> VLen(it.k) + VLen(it.v) [] OTHER -> 0
+\* KeyState
+NoKey == [t |-> "nokey"]
+AttrKey == [t |-> "attr"]
+SlotKey(vt) == [t |-> "slot", vt |-> vt]
+\* BuilderState with its ItemCollection (last, rest_size, items_count)
+Frame(key, inb) == [key |-> key, inb |-> inb, attrs |-> 0, last |-> NoItem, rest |-> 0, cnt |-> 0]
+ItemsLen(f) == f.rest + ILen(f.last)
+PushItem(f, it) == [f EXCEPT !.cnt = @ + 1, !.rest = @ + ILen(f.last), !.last = it]       \* ItemCollection::push
+TakeLast(f) == [f EXCEPT !.last = NoItem]                                                  \* ItemCollection::pop (the count stays)
+\* ValueValidator: state "init" | "prog" | "inv", the stack of builders, the pending slot key (Option<ValueType>)
+NoVT == [t |-> "none"]
+NewValidator == [state |-> "init", stack |-> <<>>, sk |-> NoVT]
+Top(V) == V.stack[Len(V.stack)]
+SetTop(V, f) == [V EXCEPT !.stack = [@ EXCEPT ![Len(@)] = f]]
+Invalid(V) == [V EXCEPT !.state = "inv"]
+Ret(V, r) == [val |-> V, ret |-> r]
+
+NewRecordFrame(V, inb) ==          \* takes the pending slot key
+    [V EXCEPT !.stack = Append(@, Frame(IF V.sk = NoVT THEN NoKey ELSE SlotKey(V.sk), inb)), !.sk = NoVT]
+NewAttrFrame(V) ==
+    LET W == IF V.stack # <<>> /\ ~Top(V).inb THEN V ELSE NewRecordFrame(V, FALSE)
+    IN [W EXCEPT !.stack = Append(@, Frame(AttrKey, TRUE))]
+NewRecordItem(V) ==                \* Result<(), ()>: ok = FALSE is Err(())
+    IF V.stack = <<>> THEN [val |-> V, ok |-> FALSE]
+    ELSE [val |-> IF Top(V).inb THEN NewRecordFrame(V, TRUE) ELSE SetTop(V, [Top(V) EXCEPT !.inb = TRUE]), ok |-> TRUE]
+SetSlotKey(V) ==                   \* the popped item carries the SHAPE of the key into the slot
+    IF V.stack = <<>> THEN [val |-> V, ok |-> FALSE]
+    ELSE LET it == Top(V).last IN
+         [val |-> [SetTop(V, TakeLast(Top(V))) EXCEPT !.sk = IF it.t = "V" THEN it.v ELSE Prim], ok |-> TRUE]
+AddItem(V, vt) ==
+    LET W == [V EXCEPT !.sk = NoVT] IN          \* slot_key.take() happens first
+    IF V.stack = <<>> THEN [val |-> W, ok |-> FALSE]
+    ELSE IF Top(V).inb
+           THEN [val |-> SetTop(W, PushItem(Top(W), IF V.sk = NoVT THEN ValIt(vt) ELSE SlotIt(V.sk, vt))), ok |-> TRUE]
+           ELSE [val |-> W, ok |-> FALSE]
+\* pop(is_attr_end): [v, ok, done] - done = the completed top-level record (NoVT if none)
+Pop(V, attrEnd) ==
+    IF V.stack = <<>> THEN [val |-> V, ok |-> FALSE, done |-> NoVT]
+    ELSE LET f == Top(V)
+             W == [V EXCEPT !.stack = SubSeq(@, 1, Len(@) - 1)]
+             rec == RecT(f.attrs, ItemsLen(f))
+         IN CASE f.key.t = "nokey" ->
+                   IF attrEnd THEN [val |-> W, ok |-> FALSE, done |-> NoVT]
+                   ELSE IF W.stack = <<>> THEN [val |-> W, ok |-> TRUE, done |-> rec]
+                   ELSE [val |-> SetTop(W, PushItem(Top(W), ValIt(rec))), ok |-> TRUE, done |-> NoVT]
+              [] f.key.t = "slot" ->
+                   IF attrEnd \/ W.stack = <<>> THEN [val |-> W, ok |-> FALSE, done |-> NoVT]
+                   ELSE [val |-> SetTop(W, PushItem(Top(W), SlotIt(f.key.vt, rec))), ok |-> TRUE, done |-> NoVT]
+              [] f.key.t = "attr" ->
+                   IF ~attrEnd \/ W.stack = <<>> THEN [val |-> W, ok |-> FALSE, done |-> NoVT]
+                   ELSE LET body == IF f.attrs = 0 /\ f.cnt <= 1
+                                      THEN (CASE f.last.t = "V" -> f.last.v
+                                              [] f.last.t = "S" -> RecT(0, ILen(f.last))
+                                              [] OTHER -> Prim)
+                                      ELSE rec
+                        IN [val |-> SetTop(W, [Top(W) EXCEPT !.attrs = @ + VLen(body)]), ok |-> TRUE, done |-> NoVT]
+
+\* feed_event: [val |-> the validator afterwards, ret |-> Option<ValueType> returned]
+FeedEvent(V, e) ==
+    CASE V.state = "init" ->
+           (CASE e.k = "sa" -> Ret([NewAttrFrame(V) EXCEPT !.state = "prog"], NoVT)
+              [] e.k = "sb" -> Ret([NewRecordFrame(V, TRUE) EXCEPT !.state = "prog"], NoVT)
+              [] e.k \in {"slot", "ea", "er"} -> Ret(Invalid(V), NoVT)
+              [] OTHER -> Ret(V, NoVT))
+      [] V.state = "prog" ->
+           (CASE e.k = "prim" -> (LET r == AddItem(V, Prim) IN Ret(IF r.ok THEN r.val ELSE Invalid(r.val), NoVT))
+              [] e.k = "sa" -> Ret(NewAttrFrame(V), NoVT)
+              [] e.k = "sb" -> (LET r == NewRecordItem(V) IN Ret(IF r.ok THEN r.val ELSE Invalid(r.val), NoVT))
+              [] e.k = "slot" -> (LET r == SetSlotKey(V) IN Ret(IF r.ok THEN r.val ELSE Invalid(r.val), NoVT))
+              [] e.k = "ea" -> (LET r == Pop(V, TRUE) IN
+                                Ret(IF ~r.ok THEN Invalid(r.val) ELSE IF r.done # NoVT THEN [r.val EXCEPT !.state = "init"] ELSE r.val, NoVT))
+              [] e.k = "er" -> (LET r == Pop(V, FALSE) IN
+                                IF ~r.ok THEN Ret(Invalid(r.val), NoVT)
+                                ELSE IF r.done # NoVT THEN Ret([r.val EXCEPT !.state = "init"], r.done) ELSE Ret(r.val, NoVT)))
+      [] OTHER -> Ret(V, NoVT)
+Feed(V, e) == FeedEvent(V, e).val
+
+\* PartialEq for ValueValidator: frames are compared in groups - a frame plus the key-less frames that follow it - by
+\* the SUMS of their item sizes and attribute sizes; frames left over on one side are passed over
+RECURSIVE Absorb2(_, _, _, _)
+Absorb2(fs, k, il, al) ==      \* add the key-less frames from position k on: <<next position, items, attrs>>
+    IF k <= Len(fs) /\ fs[k].key.t = "nokey" THEN Absorb2(fs, k + 1, il + ItemsLen(fs[k]), al + fs[k].attrs) ELSE <<k, il, al>>
+RECURSIVE GroupsEq(_, _, _, _)
+GroupsEq(s1, i, s2, j) ==
+    IF i <= Len(s1) /\ j <= Len(s2)
+      THEN LET g1 == Absorb2(s1, i + 1, ItemsLen(s1[i]), s1[i].attrs)
+               g2 == Absorb2(s2, j + 1, ItemsLen(s2[j]), s2[j].attrs)
+           IN IF g1[2] = g2[2] /\ g1[3] = g2[3] THEN GroupsEq(s1, g1[1], s2, g2[1]) ELSE FALSE
+    ELSE IF i <= Len(s1) THEN GroupsEq(s1, i + 1, s2, j)
+    ELSE IF j <= Len(s2) THEN GroupsEq(s1, i, s2, j + 1)
+    ELSE TRUE
+VEq(V1, V2) ==
+    /\ V1.sk = V2.sk
+    /\ CASE V1.state = "prog" /\ V2.state = "prog" -> GroupsEq(V1.stack, 1, V2.stack, 1)
+         [] V1.state = "init" /\ V2.state = "init" -> TRUE
+         [] OTHER -> FALSE
+
+\* incremental_compare over two event sequences without parse errors: "T" / "F" / "N" (None)
+SB == [k |-> "sb", v |-> ""]
+ER == [k |-> "er", v |-> ""]
+\* One iteration of the loop of incremental_compare.  c = [res, i, j, v1, v2]: res = "run" while the loop goes on,
+\* else the result "T" / "F" / "N" (None).  (A step function rather than a recursive operator: TLC runs the loop as a
+\* behaviour, one state per iteration.)
+CmpStart == [res |-> "run", i |-> 1, j |-> 1, v1 |-> NewValidator, v2 |-> NewValidator]
+Done(c, r) == [c EXCEPT !.res = r]
+\* the check at the bottom of the loop
+After(c, i, W1, j, W2) ==
+    IF ~VEq(W1, W2) THEN Done(c, IF W1.state = "inv" /\ W2.state = "inv" THEN "N" ELSE "F")
+    ELSE [res |-> "run", i |-> i, j |-> j, v1 |-> W1, v2 |-> W2]
+\* skipping a StartBody and then an EndRecord on one side: <<ok, position, event, validator>>
+SkipOne(E, i, V, ev) == IF i + 1 <= Len(E) THEN <<TRUE, i + 1, E[i + 1], Feed(V, ev)>> ELSE <<FALSE, i, ev, Feed(V, ev)>>
+Skip(E, i, V) ==
+    LET a == IF E[i] = SB THEN SkipOne(E, i, V, SB) ELSE <<TRUE, i, E[i], V>>
+    IN IF ~a[1] THEN a
+       ELSE IF a[3] = ER THEN SkipOne(E, a[2], a[4], ER) ELSE a
+CmpStep(E1, E2, c) ==
+    LET i == c.i
+        j == c.j
+    IN CASE i <= Len(E1) /\ j <= Len(E2) ->
+              IF E1[i] = E2[j] THEN After(c, i + 1, Feed(c.v1, E1[i]), j + 1, Feed(c.v2, E2[j]))
+              ELSE LET a == Skip(E1, i, c.v1) IN
+                   IF ~a[1] THEN Done(c, "F")
+                   ELSE LET b == Skip(E2, j, c.v2) IN
+                        IF ~b[1] THEN Done(c, "F")
+                        ELSE IF a[3] # b[3] THEN Done(c, "F")
+                        ELSE LET f1 == FeedEvent(a[4], a[3])
+                                 f2 == FeedEvent(b[4], b[3])
+                             IN IF f1.ret # f2.ret THEN Done(c, "F") ELSE After(c, a[2] + 1, f1.val, b[2] + 1, f2.val)
+         [] i <= Len(E1) -> After(c, i + 1, Feed(c.v1, E1[i]), j, c.v2)
+         [] j <= Len(E2) -> After(c, i, c.v1, j + 1, Feed(c.v2, E2[j]))
+         [] OTHER -> Done(c, IF VEq(c.v1, c.v2) THEN "T" ELSE "F")
+\* compare_recon_values for two DIFFERENT valid texts: None falls back to string equality, which is false
+CompareResult(c) == IF c.res = "T" THEN 1 ELSE 0
 
 RECURSIVE HasLeaf(_, _)
 HasLeaf(v, ids) == CASE v.t = "leaf" -> v.id \in ids
